@@ -77,7 +77,7 @@ impl Check for C09 {
     }
 
     fn rule(&self) -> String {
-        "case = World script as in C08 without Server::drop: generated amounts and modes of data queued in both directions when disconnect() / disconnect_now() is called from either side, loss / duplication / reordering of data, ack, disconnect and disconnect-ack frames, blackouts incl. a total one until the end, followed by 60 s of regular stepping. Oracle: (1) if an endpoint's terminal event is Disconnect and it did not itself ask to disconnect, its Receive events before that Disconnect include every Reliable packet the peer submitted (and had accepted) before the peer's first disconnect() call, provided the peer never called disconnect_now(); (2) with t0 the first time the caller's Disconnect frame appears on the wire, the caller reaches a terminal event by t0 + 22 s + 12 x largest step gap (each of the 11 retry intervals is re-armed at the step that serves it), and the peer by max(t0, arrival of the last datagram it received) + max(22 s, its active_timeout_ms) + 12 x largest step gap; (2') a client that asked to disconnect does not end with Error(Timeout) when the server, having reported Disconnect on one of the client's requests, was handed another intact copy of the request within 19 s and put no DisconnectAck on the wire at the step that served it (Timeout is for an unreachable peer); (3) the event streams are well-formed (nothing after a terminal event). Non-trivial = a Reliable packet was still unacknowledged at a disconnect() call and at least one frame was faulted afterwards. Distinct = distinct serialised case.".into()
+        "case = World script as in C08 without Server::drop: generated amounts and modes of data queued in both directions when disconnect() / disconnect_now() is called from either side, loss / duplication / reordering of data, ack, disconnect and disconnect-ack frames, blackouts incl. a total one until the end, followed by 60 s of regular stepping. Oracle: (1) if an endpoint's terminal event is Disconnect and it did not itself ask to disconnect, its Receive events before that Disconnect include every Reliable packet the peer submitted (and had accepted) before the peer's first disconnect() call, provided the peer never called disconnect_now(); (2) with t0 the first time the caller's Disconnect frame appears on the wire, the caller reaches a terminal event by t0 + 22 s + 12 x largest step gap (each of the 11 retry intervals is re-armed at the step that serves it), and the peer by max(t0, arrival of the last datagram it received) + max(22 s, its active_timeout_ms) + 12 x largest step gap; (2') a client that asked to disconnect does not end with Error(Timeout) when the server, having reported Disconnect on one of the client's requests, was handed another intact copy of the request within 19 s and put no DisconnectAck on the wire at the step that served it (Timeout is for an unreachable peer), and the same with the roles exchanged; (3) the event streams are well-formed (nothing after a terminal event). Non-trivial = a Reliable packet was still unacknowledged at a disconnect() call and at least one frame was faulted afterwards. Distinct = distinct serialised case.".into()
     }
 
     fn assumptions(&self) -> Vec<String> {
@@ -248,6 +248,30 @@ impl Check for C09 {
                                 return CaseResult::fail(
                                     "oracle:c09:timeout_though_peer_reachable:client",
                                     format!("client {k} asked to disconnect and reported Error(Timeout) at t={ct} us; the server had reported Disconnect({addr}) at t={ts} us on receiving the client's request, and was handed another intact copy of that request at t={} us (served by its step at t={step_t} us, {} us after it closed the connection) without answering it with a DisconnectAck: the peer was reachable", d.t_us, step_t - ts),
+                                );
+                            }
+                        }
+                    }
+                }
+                // the same for the other side: the server asked to disconnect and ended with Error(Timeout) although the
+                // client, having reported Disconnect on one of the server's requests, was later handed another intact
+                // copy of the request (within 19 s; it answers for 20 s) and did not answer it
+                if let (Some((_, st_t, SEv::Error(_, SErr::Timeout))), Some(_), Some((_, tc, CEv::Disconnect))) = (s_term.clone(), s_disc_wire, c_term.clone()) {
+                    let request: Option<Box<[u8]>> = w.wire.iter().find(|r| r.to == addr && r.from == w.server_addr && r.bytes.first() == Some(&4)).map(|r| r.bytes.clone());
+                    let prev_step = slot.step_times.iter().copied().filter(|t| *t < tc).max().unwrap_or(0);
+                    let handed = |lo: u64, hi: u64, ty: u8| w.delivered.iter().any(|d| d.to == addr && d.from == w.server_addr && d.t_us > lo && d.t_us <= hi && d.bytes.first() == Some(&ty));
+                    if let (Some(request), true, false) = (request, handed(prev_step, tc, 4), handed(prev_step, tc, 5)) {
+                        for d in w.delivered.iter().filter(|d| d.to == addr && d.from == w.server_addr && d.t_us > tc && d.bytes == request) {
+                            let Some(step_t) = slot.step_times.iter().copied().filter(|t| *t >= d.t_us).min() else { continue };
+                            if step_t > tc + 19_000_000 || step_t >= st_t {
+                                continue;
+                            }
+                            classes.push("request_resent_to_closed_client");
+                            let answered = w.wire.iter().any(|r| r.from == addr && r.to == w.server_addr && r.t_us == step_t && r.bytes.first() == Some(&5));
+                            if !answered {
+                                return CaseResult::fail(
+                                    "oracle:c09:timeout_though_peer_reachable:server",
+                                    format!("the server asked client {k} ({addr}) to disconnect and reported Error(Timeout) at t={st_t} us; the client had reported Disconnect at t={tc} us on receiving the server's request, and was handed another intact copy of that request at t={} us (served by its step at t={step_t} us, {} us after it closed the connection, active_timeout_ms {}) without answering it with a DisconnectAck: the peer was reachable", d.t_us, step_t - tc, slot.cfg.active_timeout_ms),
                                 );
                             }
                         }
